@@ -8,7 +8,7 @@ NAME="$1"; MOD="$2"; shift 2
 W="$V/out/tlc/$NAME"
 rm -rf "$W"
 mkdir -p "$W/w" "$W/meta" "$W/tmp"
-for f in "$V"/spec/*.tla "$V"/spec/mc/*.tla "$V"/spec/mc/*.cfg "$V"/spec/trace/*.tla "$V"/spec/trace/*.cfg "$V"/out/gen/*.cfg; do
+for f in "$V"/spec/*.tla "$V"/spec/tlaps/*.tla "$V"/spec/mc/*.tla "$V"/spec/mc/*.cfg "$V"/spec/trace/*.tla "$V"/spec/trace/*.cfg "$V"/out/gen/*.cfg; do
   [ -e "$f" ] && ln -sf "$f" "$W/w/"
 done
 cd "$W/w" || exit 2
